@@ -54,6 +54,9 @@ Trailing(g) == "trailing" \in DOMAIN g /\ g.trailing
 (* token-level spaces (ArgTokens.tla) do not enforce the rejection of malformed attributes: C09 quantifies over well-formed ones *)
 EnforceReject(g) == ~("enforce_reject" \in DOMAIN g) \/ g.enforce_reject
 
+(* the items written in TWO attributes on the field -- #[bits(2..=3, stride = 4)] #[bits(rw)] -- split after item `split`:
+   not documented (may be rejected), but if accepted it can only mean what the items say *)
+SplitAt(g) == IF "split" \in DOMAIN g THEN g.split ELSE 0
 (* g = [head, items, isarray] *)
 GrammarVerdict(g) ==
   IF g.items = <<>> \/ HasBad(g.items) \/ NRange(g.items) # 1 THEN "must_reject"
@@ -61,7 +64,7 @@ GrammarVerdict(g) ==
   ELSE IF ~HeadMatches(g.head, RangeItem(g.items)) THEN "must_reject"
   ELSE IF HasStride(g.items) /\ ~g.isarray THEN "must_reject"
   ELSE IF Cardinality({k \in 1..Len(g.items) : g.items[k].cls = "stride"}) > 1 THEN "unspecified"
-  ELSE IF Canonical(g.items) /\ ~Trailing(g) THEN "must_accept"
+  ELSE IF Canonical(g.items) /\ ~Trailing(g) /\ SplitAt(g) = 0 THEN "must_accept"
   ELSE "unspecified"
 (* the MEANING of an attribute does not depend on the order of its items: whenever every item is well formed, there is
    exactly one range item matching the head, and access / stride occur at most once, the attribute -- if it is accepted
@@ -92,5 +95,7 @@ Seqs3 == {<<a, b, c>> : a \in (IF Level >= 2 THEN RangeItems ELSE {r \in RangeIt
          \cup {<<a, c, b>> : a \in {r \in RangeItems : r.cls # "bad"}, b \in {I("rw", "access", <<>>)}, c \in {I("stride = 2", "stride", << <<2, 2>> >>)}}
          \cup {<<a, b, b2>> : a \in {r \in RangeItems : r.cls = "range"}, b \in {I("r", "access", <<>>)}, b2 \in {I("w", "access", <<>>), I("r", "access", <<>>)}}
 AllSeqs == {<<>>} \cup Seqs1 \cup Seqs2 \cup Seqs3 \cup SeqsPerm
-Space == {[head |-> h, items |-> s, isarray |-> arr] : h \in {"bit", "bits"}, s \in AllSeqs, arr \in BOOLEAN}
+SplitSeqs == {s \in Seqs2 \cup Seqs3 \cup SeqsPerm : ~HasBad(s) /\ NRange(s) = 1}
+Space == {[head |-> h, items |-> s, isarray |-> arr, split |-> 0] : h \in {"bit", "bits"}, s \in AllSeqs, arr \in BOOLEAN}
+         \cup {g \in [head : {"bit", "bits"}, items : SplitSeqs, isarray : BOOLEAN, split : 1..2] : g.split < Len(g.items)}
 =============================================================================
